@@ -603,10 +603,7 @@ def c15(chk):
                         canary=corrupt_race_trace, silent=True, timeout=3000)
     chk.assumptions += ["Ed25519/SHA-256 primitives trusted",
                         "real-thread races sample schedules; exhaustive interleaving holds for the TLA+ design model only"]
-    if chk.tier == "thorough":
-        stronghold_stage(chk, r["cases_file"])
-    else:
-        chk.assumptions.append("StrongholdStorage is exercised by the thorough tier only (second harness binary, ~3 min build)")
+    stronghold_stage(chk, r["cases_file"])
 
 
 def stronghold_stage(chk, cases_file):
@@ -617,15 +614,29 @@ def stronghold_stage(chk, cases_file):
     with vlib.stronghold_backend(chk.prop):
         # every k-th transition (a fresh snapshot-backed stronghold per case costs ~80 ms); VERIF_SEED shifts the sample
         rows = vlib.read_ndjson(cases_file)
-        k = max(1, len(rows) // 4000)
-        sample = rows[(chk.seed % k)::k]
+        # stratified: every (operation, argument class, kind of the named slot) gets the same number of transitions
+        strata = {}
+        for row in rows:
+            op, pre = row["op"], row["pre"]
+            sl = op.get("slot")
+            kind = ("-" if sl is None else "never" if sl == 0 else
+                    ("live" if sl in pre["live"] else "dead") + ("-bls" if sl in pre.get("bls", []) else ""))
+            key = (op["name"], json.dumps({a: b for a, b in op.items() if a not in ("name", "slot", "d", "kid")}, sort_keys=True), kind)
+            strata.setdefault(key, []).append(row)
+        per = q(chk, 3, 40)
+        sample = []
+        for key in sorted(strata):
+            rs = strata[key]
+            off = (chk.seed * 7919) % len(rs)
+            sample += (rs[off:] + rs[:off])[:per]
+        chk.extra["stronghold_strata"] = len(strata)
         p = cases_file.replace(".cases.ndjson", ".stronghold.cases.ndjson")
         vlib.write_ndjson(p, sample)
         chk.replay(p, tag=".stronghold", timeout=3000, vacuity=False)
         chk.canary_cases(p, flip_case_expectation)
-        record_and_validate(chk, "C15.seq", "KeyStoreTrace", "KeyStoreTrace.cfg", 1500, 2, "key_store/trace",
+        record_and_validate(chk, "C15.seq", "KeyStoreTrace", "KeyStoreTrace.cfg", 1500, q(chk, 1, 2), "key_store/trace",
                             canary=flip_ok_in_trace, tag=".stronghold")
-        record_and_validate(chk, "C15.race", "KeyIdStoreTrace", "KeyIdStoreTrace.cfg", 300, 2, "key_id_store/race",
+        record_and_validate(chk, "C15.race", "KeyIdStoreTrace", "KeyIdStoreTrace.cfg", 300, q(chk, 1, 2), "key_id_store/race",
                             canary=corrupt_race_trace, silent=True, timeout=3000, tag=".stronghold")
     for v in chk.violations[before:]:
         v["key"] = "stronghold/" + v["key"]
@@ -853,7 +864,7 @@ def c03(chk):
     r = chk.mc("PresentationValidation", "PresentationValidation_%s.cfg" % chk.tier, workers=4, timeout=600, heap="3g")
     chk.replay(r["cases_file"], timeout=3000)
     chk.canary_cases(r["cases_file"], flip_validation_case)
-    chk.assumptions += ["bounds explicit; Ed25519 trusted; error kinds are not compared (the property only asks for an error)"]
+    chk.assumptions += ["bounds explicit or defaulting to the current time (assumed to lie between 2010 and 2100); Ed25519 trusted; error kinds are not compared (the property only asks for an error)"]
 
 
 # ------------------------------------------------------------------------------------------------
